@@ -22,17 +22,32 @@
    producer side).  The histories that used to break the pool are Example
    C14_regression_examples / C14_example_left_out.
 
-   Now: I1, I2, I3, I5 and the auxiliary invariants hold after EVERY operation sequence.
+   Now: I1, I3, I5, the auxiliary invariants, and I2 in the sense of the code's own
+   revalidation (every value input of a pooled transaction is spendable in the utxoset) hold
+   after EVERY operation sequence.
    I4 holds for every bundle whose Block::create does not fail, with one exception that is
    part of the statement: a pooled transaction that spends an output which the produced
    block itself rebroadcasts is left out of the block and of the pool (1214e31; such a
    transaction can never validate again once the block is on the chain:
    C14_I4_left_out_is_doomed).  A failing Block::create is not reachable with well-formed
    transactions (C14_I4_create_succeeds) and hands the pool back
-   (C14_I4_failed_create_restores_pool); C14_failed_create is that decidable step class. *)
+   (C14_I4_failed_create_restores_pool); C14_failed_create is that decidable step class.
+
+   The age rule of bb88717 (an input must satisfy block_id + genesis_period >= latest + 1) is
+   explicit in the model ([age_ok], part of [tx_validate]).  It is applied at intake and when a
+   failed own block returns its transactions, but NOT by the revalidation after a block
+   (remove_block_transactions' retain calls validate_against_utxoset, the utxoset lookup only).
+   Hence "no pooled transaction has an input older than latest + 1 - genesis_period" is not an
+   invariant: after a block addition a pooled transaction may fail validate() and stay pooled
+   (I2 in the sense of Transaction::validate; C14_pool_age_invariant_refuted), and
+   Block::create's leaving-out stays reachable from the pool (C14_leave_out_still_reachable).
+   Known_C14_aged is that step class; outside it the invariant holds (C14_pool_age_invariant)
+   and then nothing is left out (C14_I4_no_leave_out_when_young): the exception in I4
+   disappears exactly when the revalidation applies the age rule too. *)
 From Saito Require Import Base Mempool MempoolProofs.
 
 Definition C14_failed_create := ev_failed_create.
+Definition Known_C14_aged := ev_aged.
 
 (* ---------------- I1, I3, I5: after every operation sequence ---------------- *)
 
@@ -52,15 +67,18 @@ Theorem C14_I5_routing_work_cache : forall g ops s,
   run (init g) ops = Ok s -> I5 (pl s).
 Proof. exact routing_work_cache. Qed.
 
-Theorem C14_I5_exact_after_block : forall s l b x,
-  step s (OBlockAdded l b) = Ok x -> I5 (pl (fst x)).
+Theorem C14_I5_exact_after_block : forall s l n b x,
+  step s (OBlockAdded l n b) = Ok x -> I5 (pl (fst x)).
 Proof. exact routing_work_exact_after_block. Qed.
 
 (* ---------------- I2: pooled transactions stay valid against the ledger ---------------- *)
 
-(* after every block addition / reorganisation, whatever the new ledger is *)
-Theorem C14_I2_pooled_valid_after_block : forall s l b x,
-  step s (OBlockAdded l b) = Ok x -> ledger (fst x) = l /\ I2 l (pl (fst x)).
+(* in the sense of the pool's own revalidation (Transaction::validate_against_utxoset: every
+   value input is spendable): after every block addition / reorganisation, whatever the new
+   ledger is *)
+Theorem C14_I2_pooled_valid_after_block : forall s l n b x,
+  step s (OBlockAdded l n b) = Ok x ->
+  ledger (fst x) = mkC l n (c_gp (ledger s)) /\ I2 (ledger (fst x)) (pl (fst x)).
 Proof. exact pooled_valid_after_block. Qed.
 
 (* at all times, when arrivals are of the types whose validate() consults the utxoset
@@ -68,6 +86,30 @@ Proof. exact pooled_valid_after_block. Qed.
 Theorem C14_I2_pooled_valid_always : forall g ops s,
   Forall op_consults ops -> run (init g) ops = Ok s -> I2 (ledger s) (pl s).
 Proof. exact pooled_valid_always. Qed.
+
+(* in the sense of Transaction::validate, which since bb88717 includes the age rule: refuted.
+   A pooled transaction t with a valid signature etc. (t_ok) and spendable inputs that
+   validate() refuses after a block addition, and that the pool itself would refuse as a
+   new arrival *)
+Theorem C14_pool_age_invariant_refuted :
+  exists g ops s t,
+    run (init g) ops = Ok s /\ known_in Known_C14_aged (init g) ops = true /\
+    In t (txs (pl s)) /\ t_ok t = true /\ valid_against (ledger s) t = true /\
+    tx_validate (ledger s) t = false /\
+    add_transaction_if_validates (ledger s) (set_txs (pl s) []) t = Ok (set_txs (pl s) []).
+Proof. exact pool_age_invariant_refuted. Qed.
+
+(* the rule is applied to every arrival ... *)
+Theorem C14_age_checked_at_intake : forall c p t p',
+  add_transaction_if_validates c p t = Ok p' -> In t (txs p') -> ~ In t (txs p) ->
+  age_ruled t = true -> age_ok c t = true.
+Proof. exact age_checked_at_intake. Qed.
+
+(* ... and every pooled transaction satisfies it on every run in which no block addition lets
+   a transaction that stays pooled grow too old (what a retain with the age rule would drop) *)
+Theorem C14_pool_age_invariant : forall g ops s,
+  known_in Known_C14_aged (init g) ops = false -> run (init g) ops = Ok s -> AgeInv s.
+Proof. exact pool_age_invariant. Qed.
 
 (* ---------------- I3: no stale reservation; unspent outputs stay spendable ---------------- *)
 
@@ -77,8 +119,8 @@ Theorem C14_I3_no_stale_reservation : forall g ops s,
 Proof. exact no_stale_reservation. Qed.
 
 (* a block addition establishes I3 from any pool state whatsoever *)
-Theorem C14_I3_no_stale_reservation_after_block : forall s l b x,
-  step s (OBlockAdded l b) = Ok x -> I3 (pl (fst x)).
+Theorem C14_I3_no_stale_reservation_after_block : forall s l n b x,
+  step s (OBlockAdded l n b) = Ok x -> I3 (pl (fst x)).
 Proof. exact no_stale_reservation_after_block. Qed.
 
 (* user-visible form: after every operation sequence an output that no pooled transaction
@@ -86,6 +128,7 @@ Proof. exact no_stale_reservation_after_block. Qed.
 Theorem C14_I3_unspent_always_spendable : forall g ops s t,
   run (init g) ops = Ok s ->
   tx_validate (ledger s) t = true -> t_type t <> TGoldenTicket -> producer_only t = false ->
+  foreign_stake t = false ->
   has_tx (t_id t) (txs (pl s)) = false ->
   (forall k u, In k (vkeys t) -> In u (txs (pl s)) -> ~ In k (in_keys u)) ->
   exists p', add_transaction_if_validates (ledger s) (pl s) t = Ok p' /\ In t (txs p').
@@ -116,8 +159,28 @@ Proof. exact bundle_atomic. Qed.
    against any ledger from which the block's rebroadcast inputs are gone *)
 Theorem C14_I4_left_out_is_doomed : forall rk t ledger',
   left_out rk t = true -> t_type t <> TFee ->
-  (forall k, In k rk -> ~ In k ledger') -> valid_against ledger' t = false.
+  (forall k, In k rk -> ~ In k (c_keys ledger')) -> valid_against ledger' t = false.
 Proof. exact left_out_is_doomed. Qed.
+
+(* where the pool age invariant holds the exception is empty: [born k] = id of the block that
+   created output k; the block after [latest] rebroadcasts outputs of block latest - gp, and a
+   transaction whose value inputs satisfy the age rule spends none of them *)
+Theorem C14_I4_no_leave_out_when_young : forall (born : N -> N) c ex l,
+  (forall k, In k (rebroadcast_keys ex) -> born k + c_gp c < c_latest c + 1) ->
+  (forall t, In t l -> t_type t <> TGoldenTicket ->
+     forall k, In k (vkeys t) -> exists e, t_oldest t = Some e /\ e <= born k) ->
+  (forall t, In t l -> t_type t <> TGoldenTicket -> age_ok c t = true) ->
+  kept ex l = l.
+Proof. exact no_leave_out_when_young. Qed.
+
+(* on the pinned code it is not: the two transactions that grew old in the pool
+   (C14_pool_age_invariant_refuted) are both left out by the next bundle *)
+Example C14_leave_out_still_reachable :
+  exists s p' b, run (init wG5) ops_aged = Ok s /\
+    bundle_block (ledger s) (pl s) true None true 0 (Some wS)
+                 [wR; mkTx 31 [(3, 100)] 0 TATR true 0 (Some 1) true] = Ok (p', Some b) /\
+    map t_id b = [90; 30; 31] /\ txs p' = [] /\ umap p' = [].
+Proof. exact leave_out_still_reachable. Qed.
 
 (* Block::create cannot fail on a reachable pool (Reserved, I1: C14_base_invariants; no
    GoldenTicket-typed transaction: it would have panicked) of transactions naming each input
@@ -151,6 +214,13 @@ Theorem C14_I4_failed_create_witness :
     C14_failed_create s (OBundle true None true 0 (Some wS) ex) = true /\
     map t_id (txs p') = [90; 15; 10] /\ p' <> pl s.
 Proof. exact failed_create_witness. Qed.
+
+(* ---------------- intake guards ---------------- *)
+
+(* a staking transaction with an input of another key is never pooled (9879695) *)
+Theorem C14_foreign_stake_refused : forall c p t,
+  t_type t = TBlockStake -> t_own t = false -> add_transaction_if_validates c p t = Ok p.
+Proof. exact foreign_stake_refused. Qed.
 
 (* ---------------- totality ---------------- *)
 
@@ -195,7 +265,7 @@ Proof. exact left_out_example. Qed.
 
 Example C14_example_life_cycle :
   exists s, run (init wG) ops_life = Ok s /\
-    known_in C14_failed_create (init wG) ops_life = false /\
+    known_in (fun s o => C14_failed_create s o || Known_C14_aged s o) (init wG) ops_life = false /\
     map t_id (txs (pl s)) = [18; 15] /\ umap (pl s) = [4; 3] /\ work (pl s) = 47 /\
     gts (pl s) = [].
 Proof. exact life_example. Qed.
@@ -206,6 +276,10 @@ Print Assumptions C14_I5_routing_work_cache.
 Print Assumptions C14_I5_exact_after_block.
 Print Assumptions C14_I2_pooled_valid_after_block.
 Print Assumptions C14_I2_pooled_valid_always.
+Print Assumptions C14_pool_age_invariant_refuted.
+Print Assumptions C14_age_checked_at_intake.
+Print Assumptions C14_pool_age_invariant.
+Print Assumptions C14_I4_no_leave_out_when_young.
 Print Assumptions C14_I3_no_stale_reservation.
 Print Assumptions C14_I3_no_stale_reservation_after_block.
 Print Assumptions C14_I3_unspent_always_spendable.
@@ -214,6 +288,7 @@ Print Assumptions C14_I4_left_out_is_doomed.
 Print Assumptions C14_I4_create_succeeds.
 Print Assumptions C14_I4_failed_create_restores_pool.
 Print Assumptions C14_I4_failed_create_witness.
+Print Assumptions C14_foreign_stake_refused.
 Print Assumptions C14_no_panic.
 Print Assumptions C14_panic_only_gt.
 Print Assumptions C14_panic_reachable.
